@@ -10,6 +10,7 @@ import signal
 import subprocess
 import sys
 import time
+import types
 
 import common
 
@@ -167,6 +168,46 @@ def watchdog(seconds):
     signal.alarm(seconds)
 
 
+def isolated_pool_case(ctx, outcomes, workers, work, consume_in_body, show=False):
+    """a pool scenario in a fresh interpreter with its own process group: a fault that wedges process-wide state (a lock
+    that a killed worker never releases — semaphores are shared across fork) must not take the rest of the check with it"""
+    marker = pathlib.Path(work) / "markers_iso"
+    shutil.rmtree(marker, ignore_errors=True)
+    marker.mkdir()
+    env = dict(os.environ)
+    env["PYTHONPATH"] = f"{common.REPO}:{common.ROOT / 'harness'}"
+    inp = {"outcomes": outcomes, "workers": workers, "results_consumed_in_body": consume_in_body, "progress_bar": show}
+    bad = any(o != "ok" for o in outcomes)
+    ctx.case(("pool-iso", tuple(outcomes), workers, consume_in_body, show), bad)
+    ctx.count(f"pool_isolated_{'body' if consume_in_body else 'exit'}")
+    proc = subprocess.Popen([sys.executable, str(common.ROOT / "harness" / "c14_poolcase.py"), json.dumps(outcomes), str(workers),
+                             "1" if consume_in_body else "0", str(marker), "1" if show else "0"], env=env, stdout=subprocess.PIPE, stderr=subprocess.PIPE,
+                            text=True, start_new_session=True)
+    try:
+        so, se = proc.communicate(timeout=60)
+    except subprocess.TimeoutExpired:
+        os.killpg(proc.pid, signal.SIGKILL)
+        proc.communicate()
+        ctx.violate(f"outcomes {outcomes} with {workers} workers, progress bar {'on' if show else 'off'}, results {'consumed in the body' if consume_in_body else 'awaited at exit'}: "
+                    f"the command hung (> 60 s) instead of reporting the error", inp, "error within bounded time", "hang")
+        return
+    try:
+        os.killpg(proc.pid, signal.SIGKILL)      # stray workers
+    except Exception:  # noqa: BLE001
+        pass
+    line = next((l for l in so.splitlines() if l.startswith("RESULT ")), None)
+    if line is None:
+        raise common.Infra(f"pool case driver produced no result: {so[-200:]} {se[-400:]}")
+    res = json.loads(line[7:])
+    died = any(o in ("die", "dielock") for o in outcomes)
+    if bad and res["raised"] is None:
+        ctx.violate(f"outcomes {outcomes} with {workers} workers: command reported success", inp, "error", res)
+    elif died and res["raised"] not in ("RuntimeError", "BrokenProcessPool", "KeyError"):
+        ctx.violate(f"outcomes {outcomes} with {workers} workers: a dead worker surfaced as {res['raised']}", inp, "RuntimeError", res)
+    if not bad and (res["raised"] is not None or res["done"] != list(range(len(outcomes)))):
+        ctx.violate(f"all tasks ok but the command raised {res['raised']} / ran {res['done']}", inp, "ok", res)
+
+
 def exit_steps_case(ctx):
     """which shutdown steps __exit__ performs in the three situations, against Model.Sched.exitSteps"""
     from bio2zarr import core
@@ -289,9 +330,8 @@ def pipeline_cases(ctx, work, rng):
         for mode in ("raise", "die", "die_locked"):
             workers = rng.choice([1, 2])
             if what == "plink":
-                import types
                 from bio2zarr import core
-                sl = core.chunk_aligned_slices(types.SimpleNamespace(chunks=(2,), shape=(len(codes),)), max(1, workers * 4))
+                sl = core.chunk_aligned_slices(common.zarr_like((len(codes),), (2,)), max(1, workers * 4))
                 idx = int(rng.choice(sl)[0])     # the start row identifies the slice
             else:
                 idx = rng.randrange(0, 1000)      # resolved modulo the number of partitions in the worker
@@ -304,14 +344,22 @@ def pipeline_cases(ctx, work, rng):
         shutil.rmtree(out, ignore_errors=True)
         env = dict(os.environ)
         env["B2Z_VERIF_INJECT"] = json.dumps({"target": what, "index": idx, "mode": mode})
+        env["B2Z_VERIF_SHOW_PROGRESS"] = "1" if (len(str(idx)) + workers + len(mode)) % 2 else "0"
         env["PYTHONPATH"] = f"{common.ROOT / 'harness' / 'inject'}:{common.REPO}:{common.ROOT / 'harness'}"
         inp = {"command": what, "failure": mode, "task": idx, "workers": workers}
         ctx.case(("pipeline", what, mode, idx, workers), True)
         ctx.count(f"pipeline_{what}_{mode}")
         try:
-            p = subprocess.run([sys.executable, str(common.ROOT / "harness" / "c14_pipeline.py"), "explode" if what == "scan" else what,
-                                str(workers), src, str(out)],
-                               env=env, capture_output=True, text=True, timeout=60)
+            proc = subprocess.Popen([sys.executable, str(common.ROOT / "harness" / "c14_pipeline.py"), "explode" if what == "scan" else what,
+                                     str(workers), src, str(out)],
+                                    env=env, stdout=subprocess.PIPE, stderr=subprocess.PIPE, text=True, start_new_session=True)
+            try:
+                so, se = proc.communicate(timeout=60)
+            except subprocess.TimeoutExpired:
+                os.killpg(proc.pid, signal.SIGKILL)       # the command and every worker it spawned
+                proc.communicate()
+                raise
+            p = types.SimpleNamespace(stdout=so, stderr=se, returncode=proc.returncode)
         except subprocess.TimeoutExpired:
             ctx.violate(f"{what} with a worker that {mode}s in task {idx}: command hung (> 60 s)", inp, "error", "hang")
             continue
@@ -378,7 +426,8 @@ def run(ctx):
                 for pos in ((0, 2, 5) if ctx.thorough else (1,)):
                     o = ["ok"] * 6
                     o[pos] = "dielock"
-                    pool_case(ctx, o, w, work, rng, consume_in_body=body)
+                    for show in (False, True):
+                        isolated_pool_case(ctx, o, w, work, body, show)
         pool_case(ctx, ["ok", 4, "ok", "ok"], 2, work, rng, consume_in_body=True)
         pool_case(ctx, ["ok"] * 5, 2, work, rng, consume_in_body=True)
         exit_steps_case(ctx)
